@@ -203,6 +203,10 @@ class PoolWorldB(object):
                             f = ch.choose(4, 'mail-reply', 'data')
                             if f:
                                 p.script['mail@%d' % txn] = {1: '4', 2: '5', 3: 'disconnect'}[f]
+                        if stage.startswith('rcpt') and cfg.get('rcpt_faults'):
+                            f = ch.choose(3, 'rcpt-reply', 'data')
+                            if f:
+                                p.script['%s@%d' % (stage, txn)] = {1: '4', 2: '5'}[f]
                         if stage.startswith('eod') and ch.choose(2, 'eod-silent', 'data') == 1:
                             p.script['%s@%d' % (stage, txn)] = 'stall'                 # the peer goes silent after the final dot
                         if stage == 'rset' and ch.choose(2, 'rset-reply-late', 'data') == 1:
@@ -225,7 +229,7 @@ class PoolWorldB(object):
             callers = []
             inflight = [0]
             for i in range(cfg['callers']):
-                rec = {'i': i, 'sender': 's%d@x' % i, 'outcome': None, 'started': False, 'env': make_envelope(i, 1)}
+                rec = {'i': i, 'sender': 's%d@x' % i, 'outcome': None, 'started': False, 'env': make_envelope(i, cfg.get('rcpts', 1))}
                 callers.append(rec)
 
                 def call(rec=rec):
@@ -518,6 +522,11 @@ def configs(tier, seed):
                     cfgs.append({'layer': 'B', 'lmtp': True, 'callers': callers, 'pool_size': ps, 'idle_timeout': it, 'faults': True, 'd': 0 if q else 1, 'dd': 2})
                 if ps == 1 or callers == 2:
                     cfgs.append({'layer': 'M', 'callers': callers, 'pool_size': ps, 'idle_timeout': it, 'slow_dns': callers == 2, 'd': 2 if q else 3, 'dd': 0})
+                if callers == 2 and ps == 1:
+                    # two recipients each, every RCPT may be refused either way (all refused, in different ways, is one case)
+                    for lm in (False, True):
+                        cfgs.append({'layer': 'B', 'lmtp': lm, 'callers': 2, 'pool_size': 1, 'idle_timeout': it, 'faults': True, 'rcpts': 2,
+                                     'rcpt_faults': True, 'd': 0 if q else 1, 'dd': 2})
                 cfgs.append({'layer': 'H', 'callers': callers, 'pool_size': ps, 'idle_timeout': it, 'faults': True, 'delays': callers == 2, 'd': 1 if q else 2, 'dd': 2})
     return cfgs
 
